@@ -163,6 +163,10 @@ class MarkovChainLevyLiborModel(MarkovChainSDE):
                 tail_integral_j = partial(driver.marginal_tail_integral, i=j)
 
                 def integrand(xx, yy):
+                    if xx == 0 or yy == 0:
+                        # x*y vanishes on the axes (the tail integrals are infinite there for infinite activity and the
+                        # copula density would be evaluated at infinity: nan)
+                        return 0.0
                     u = np.array([tail_integral_i(x=xx), tail_integral_j(x=yy)])
                     return nui_x(xx) * nuj_x(yy) * copula.x_first_derivative(u=u)
 
